@@ -4,7 +4,13 @@ from ..runner import Spec
 from . import quant_wire as qw
 
 
-REQ_COIN_DEPENDENT = ("continue-updates-diverge", "continue-merge-diverges", "merge-from-restored-diverges")
+# REQ: the per-compactor coin is not part of the image.  A restored compactor draws a fresh coin; `merge` ORs the other
+# sketch's compaction state into a compactor but keeps that compactor's own (possibly never flipped) coin (C08 scope, D9).
+# Hence: the outcome of a merge INTO a restored sketch is never determined by the image, and after any merge neither is the
+# outcome of further updates.  Those comparisons are recorded, not judged; the coin-independent observables always are.
+REQ_COIN_DEPENDENT_ALWAYS = ("continue-merge-diverges",)
+REQ_COIN_DEPENDENT_AFTER_MERGE = ("continue-updates-diverge",)
+REQ_COIN_DEPENDENT = REQ_COIN_DEPENDENT_ALWAYS + REQ_COIN_DEPENDENT_AFTER_MERGE
 
 
 class C09Part(qw.WirePart):
@@ -53,16 +59,31 @@ class C09Part(qw.WirePart):
                 continue
             for f in g["fails"]:
                 key, _, detail = f.partition(":")
-                if self.fam == "req" and merged and key in REQ_COIN_DEPENDENT:
-                    # the per-compactor coin is not part of the image and `merge` adopts the other sketch's compaction state
-                    # without its coin (C08 scope, D9): after a merge the next compaction of the restored sketch is not
-                    # determined by the image.  The coin-independent observables are still compared.
+                if self.fam == "req" and (key in REQ_COIN_DEPENDENT_ALWAYS or (merged and key in REQ_COIN_DEPENDENT_AFTER_MERGE)):
                     continue
                 bad.append(("%s/%s" % (self.fam, key), "%s %s image=%s" % (g["kind"], detail, g["hex"][:80]), i))
         return bad
 
     def nontrivial_key(self, hist, impl_out):
+        # called once per history by the runner: also the place where the measured figures are accumulated
         sig = set()
+        merged = False
+        for l, o in zip(hist, impl_out):
+            if l.startswith("merge"):
+                merged = True
+            g = qw.parse_img(o) if o.startswith("IMG ") else None
+            if not g:
+                continue
+            self.count("images")
+            self.count("images_" + g["ty"])
+            self.count("images_estimation_mode" if " est=1" in g["content"] else "images_exact_or_empty")
+            if merged:
+                self.count("images_post_merge")
+            if qw.d2_state(g):
+                self.count("kll_images_with_empty_level_0")
+            if self.fam == "req" and any(f.partition(":")[0] in REQ_COIN_DEPENDENT for f in g["fails"]):
+                self.count("req_continuations_diverging_by_unserialized_coin")
+            self.count("continuation_updates", max(0, len(l.split()) - 3))
         for _, g in self.imgs(impl_out):
             if g and g["size"] > 8:
                 sig.add((g["kind"], " est=1" in g["content"], min(g["size"] // 64, 8)))
@@ -95,6 +116,10 @@ class C09Quant(Spec):
 
     def parts(self):
         return PARTS
+
+    def extra_stages(self, rep, tier, rng, broken):
+        for p in PARTS:
+            p._rep, p.stats = rep, {}
 
 
 SPEC = C09Quant()
